@@ -325,6 +325,12 @@ class Interp:
                 if isinstance(t, ast.Name) and isinstance(s.value, ast.Tuple):
                     # a tuple of format arguments held in a local: remembered with the values its elements have here
                     env["\0tuple:" + t.id] = [(self.value(a, env), src(a)) for a in s.value.elts]
+                    # ... or a tuple of lines to be written with writelines(*lines)
+                    vs_ = [self.value(a, env) for a in s.value.elts]
+                    if vs_ and all(isinstance(v_, Str) or (isinstance(v_, Const) and (v_.v is None or isinstance(v_.v, str))) for v_ in vs_):
+                        env["\0lines:" + t.id] = ListVal([v_ if isinstance(v_, Str) or v_.v is None else Str([("lit", v_.v)]) for v_ in vs_])
+                elif isinstance(t, ast.Name):
+                    env.pop("\0lines:" + t.id, None)
                 elif isinstance(t, ast.Name):
                     env.pop("\0tuple:" + t.id, None)
             return None
@@ -788,6 +794,8 @@ class Interp:
             for a in c.args:
                 if isinstance(a, ast.Starred):
                     lv = self.value(a.value, env) if isinstance(a.value, ast.Name) else None
+                    if isinstance(a.value, ast.Name) and ("\0lines:" + a.value.id) in env:
+                        lv = env["\0lines:" + a.value.id]
                     if isinstance(lv, Const) and isinstance(lv.v, (list, tuple)) and all(isinstance(x_, str) or x_ is None for x_ in lv.v):
                         lv = ListVal([Str([("lit", x_)]) if x_ is not None else Const(None) for x_ in lv.v])
                     if not isinstance(lv, ListVal):
